@@ -1,7 +1,9 @@
 """Runs the obligations of one property: proof back ends, concrete companions, replay, known findings, evidence."""
 from __future__ import annotations
 
+import contextlib
 import importlib
+import io
 import json
 import multiprocessing as mp
 import os
@@ -39,7 +41,10 @@ def _load_contracts(prop):
 def _model_values(model, inputs):
     import z3
     vals = {}
+    assigned = {d.name() for d in model.decls()}
     for name, var in inputs.items():
+        if name not in assigned:
+            continue      # unconstrained by the counterexample: the replay draws a random value (distinct tokens)
         v = model.eval(var, model_completion=True)
         if z3.is_bool(v):
             vals[name] = bool(z3.is_true(v))
@@ -74,7 +79,7 @@ def _run_conc(obl, case, values, seed, tier, max_tries=60):
         ctx = Ctx("conc", values=values, rng=rng, tier=tier)
         tries += 1
         try:
-            with warnings.catch_warnings():
+            with warnings.catch_warnings(), contextlib.redirect_stdout(io.StringIO()):
                 warnings.simplefilter("ignore")
                 obl.fn(ctx, **case)
         except Reject:
@@ -123,7 +128,7 @@ def _prove_instance(obl, case, tier, known_witnesses, timeout_ms=60000):
     def run_once():
         ctx.reset()
         try:
-            with warnings.catch_warnings():
+            with warnings.catch_warnings(), contextlib.redirect_stdout(io.StringIO()):
                 warnings.simplefilter("ignore")
                 obl.fn(ctx, **case)
             exc = None
@@ -152,6 +157,7 @@ def _prove_instance(obl, case, tier, known_witnesses, timeout_ms=60000):
     stubs_used = set()
     covered = False
     known_hit = []
+    outside_feasible = False
     t0 = time.time()
     for p in paths:
         pre, posts, wits, inputs, exc, used, tb = p.value if p.value is not None else ([], [], {}, {}, p.exc, [], "")
@@ -165,6 +171,11 @@ def _prove_instance(obl, case, tier, known_witnesses, timeout_ms=60000):
         if r == z3.unsat:
             continue   # infeasible path
         covered = covered or r == z3.sat
+        if known_witnesses and "*" not in known_witnesses:
+            wl0 = [wits[w] if isinstance(wits[w], z3.BoolRef) else z3.BoolVal(bool(wits[w])) for w in known_witnesses if w in wits]
+            s.push(); s.add(z3.Not(z3.Or(*wl0)) if wl0 else z3.BoolVal(True))
+            outside_feasible = outside_feasible or s.check() != z3.unsat
+            s.pop()
         # side obligations of shims (sqrt domain, nonsingular inverse) are part of the VC set
         goals = [(f"side:{lab}", g) for lab, g in p.side]
         if exc is not None:
@@ -233,7 +244,8 @@ def _prove_instance(obl, case, tier, known_witnesses, timeout_ms=60000):
         res.update(verdict="vacuous", reason="no verification condition generated")
         return res
     res["known_hit"] = known_hit
-    res["verdict"] = "proved"
+    # an instance that lies entirely inside a listed known finding is not a discharged obligation
+    res["verdict"] = "known" if (known_hit and not outside_feasible) else "proved"
     return res
 
 
@@ -277,7 +289,10 @@ def _worker(args):
         # 2. proof
         pr = _prove_instance(obl, case, tier, known_w)
         out.update(pr)
-        if bad and pr.get("verdict") == "proved":
+        wit_b = bad[0].get("witnesses", {}) if bad else {}
+        if bad and pr.get("verdict") in ("proved", "known") and any(w == "*" or wit_b.get(w) for w in known_w):
+            out["conc_known"] = True
+        elif bad and pr.get("verdict") == "proved":
             out.update(verdict="conc-fail", failed=bad[0].get("failed", []), values=bad[0]["inputs"],
                        exc=bad[0].get("exc"), tb=bad[0].get("tb"), witnesses=bad[0].get("witnesses", {}))
         return out
@@ -407,11 +422,12 @@ def _report(prop, tier, seed, obls, results, known, t_start, write_baseline, onl
         v = r.get("verdict")
         inst = r["instance"]
         kf = _known_for(inst, known)
-        if v == "proved":
-            discharged += 1
-            for lab in r.get("known_hit", []):
+        if v in ("proved", "known"):
+            if v == "proved":
+                discharged += 1
+            if r.get("known_hit") or r.get("conc_known"):
                 for k in kf:
-                    known_lines.append(f"KNOWN-FINDING: property={prop} {inst} clause={lab} witness={k['witness']} :: {k['text']}")
+                    known_lines.append(f"KNOWN-FINDING: property={prop} {inst} witness={k['witness']} ({len(r.get('known_hit', []))} clauses) :: {k['text'][:160]}")
         elif v == "bounded-pass":
             pass
         elif v in ("refuted",):
@@ -495,6 +511,7 @@ def _report(prop, tier, seed, obls, results, known, t_start, write_baseline, onl
         samples.append({"obligation": r["instance"], "kind": r.get("kind"), "verdict": r.get("verdict"),
                         "paths": r.get("paths"), "vcs": r.get("vcs"), "clauses": r.get("labels", [])[:8],
                         "concrete_inputs_example": (r.get("conc") or [{}])[0].get("inputs", {})})
+    deductive = [r for r in deductive if r.get("verdict") != "known"]
     n_ded = len(deductive)
     n_ded_ok = sum(1 for r in deductive if r.get("verdict") == "proved")
     conc_runs = sum(r.get("conc_runs", 0) for r in results)
@@ -519,6 +536,7 @@ def _report(prop, tier, seed, obls, results, known, t_start, write_baseline, onl
         "downgraded_to_bounded": downgraded,
         "undecided": [r["instance"] for r in still_undecided],
         "known_findings_hit": known_lines,
+        "known_finding_instances_not_counted": [r["instance"] for r in results if r.get("verdict") == "known"],
         "explanation": "deductive obligations (H: real function bodies executed on z3 symbols over all paths; T: AST->VC; X: exact algebra; L: lemma) are counted in obligations/discharged; bounded obligations (B) are concrete evaluations of the same contract on the real code over the stated domain and are never counted as proved",
         "exhaustive": False,
     }
